@@ -52,10 +52,19 @@ type lbSCEv struct {
 	late  bool // delivered after the instance's Close returned
 }
 
+// lbAddrSet is one address list given to a SubConn (NewSubConn or
+// UpdateAddresses); seq is taken before the call.
+type lbAddrSet struct {
+	seq   uint64
+	addrs []string
+}
+
 type lbSC struct {
 	id          int
 	inst        *lbInst
-	addr        string
+	addr        string      // current address list, joined with "+" (log text)
+	addrHist    []lbAddrSet // [0]: creation
+	hc          bool        // health-checked: READY follows the backend's health status
 	sc          balancer.SubConn
 	createdSeq  uint64
 	log         []lbSCEv
@@ -64,6 +73,50 @@ type lbSC struct {
 	shutSeq     uint64 // stamp taken before SubConn.Shutdown was called
 	shutDoneSeq uint64 // ... after it returned
 	connects    []uint64
+}
+
+// cur is the address list most recently given to the SubConn.
+func (s *lbSC) cur() []string { return s.addrHist[len(s.addrHist)-1].addrs }
+
+func lbHasAddr(l []string, a string) bool {
+	for _, v := range l {
+		if v == a {
+			return true
+		}
+	}
+	return false
+}
+
+// had: addr was in a list given to the SubConn before event seq `before`.
+func (s *lbSC) had(addr string, before uint64) bool {
+	for _, h := range s.addrHist {
+		if h.seq < before && lbHasAddr(h.addrs, addr) {
+			return true
+		}
+	}
+	return false
+}
+
+// updates counts the UpdateAddresses calls started before event seq `before`.
+func (s *lbSC) updates(before uint64) int {
+	n := 0
+	for _, h := range s.addrHist[1:] {
+		if h.seq < before {
+			n++
+		}
+	}
+	return n
+}
+
+// connected: a connection to one of the SubConn's current addresses, dialled
+// after the SubConn was created, is open.
+func (s *lbSC) connected() bool {
+	for _, d := range s.inst.x.w.net.Dials {
+		if d.Result == "ok" && d.Seq > s.createdSeq && lbHasAddr(s.cur(), d.Addr) && !s.inst.x.w.net.Pairs[d.Conn].Closed {
+			return true
+		}
+	}
+	return false
 }
 
 func (s *lbSC) connect(why string) {
@@ -92,6 +145,9 @@ type lbInst struct {
 	builtSeq  uint64
 	lastCbSeq uint64 // stamp of the latest call from gRPC into this instance
 	stop      chan struct{}
+
+	created     int // NewSubConn calls
+	addrUpdates int // UpdateAddresses calls on live SubConns
 }
 
 func (i *lbInst) cb() uint64 {
@@ -102,7 +158,10 @@ func (i *lbInst) cb() uint64 {
 func (i *lbInst) newSC(addr string) *lbSC {
 	x := i.x
 	s := &lbSC{id: len(x.scs), inst: i, addr: addr, state: connectivity.Idle, createdSeq: x.e.Next()}
-	sc, err := i.cc.NewSubConn([]resolver.Address{{Addr: addr}}, balancer.NewSubConnOptions{StateListener: func(st balancer.SubConnState) { i.onState(s, st) }})
+	s.addrHist = []lbAddrSet{{seq: s.createdSeq, addrs: []string{addr}}}
+	s.hc = x.cfg.Health != nil && i.cfg.HCMask>>(uint(i.created)%8)&1 == 1
+	i.created++
+	sc, err := i.cc.NewSubConn([]resolver.Address{{Addr: addr}}, balancer.NewSubConnOptions{HealthCheckEnabled: s.hc, StateListener: func(st balancer.SubConnState) { i.onState(s, st) }})
 	if err != nil {
 		x.e.Logf("lb inst=%d NewSubConn(%s) failed", i.idx, addr)
 		return nil
@@ -110,8 +169,51 @@ func (i *lbInst) newSC(addr string) *lbSC {
 	s.sc = sc
 	x.scs = append(x.scs, s)
 	i.scs = append(i.scs, s)
-	x.e.Logf("lb inst=%d new sc%d addr=%s", i.idx, s.id, addr)
+	x.e.Logf("lb inst=%d new sc%d addr=%s hc=%v", i.idx, s.id, addr, s.hc)
 	return s
+}
+
+// updateAddrs re-targets an existing SubConn (deprecated but supported API:
+// SubConn.UpdateAddresses / ClientConn.UpdateAddresses), whatever state it is
+// in. Live SubConns of one instance never share an address, so that
+// connections can be attributed to SubConns by address.
+func (i *lbInst) updateAddrs(s *lbSC, idx []int, empty, viaCC bool) {
+	x := i.x
+	var list []string
+	if !empty {
+		n := len(x.cfg.Addrs)
+		for _, k := range idx {
+			a := x.cfg.Addrs[((k%n)+n)%n]
+			ok := !lbHasAddr(list, a)
+			for _, o := range i.scs {
+				if o != s && !o.shutCalled && lbHasAddr(o.cur(), a) {
+					ok = false
+				}
+			}
+			if ok {
+				list = append(list, a)
+			}
+		}
+		if len(list) == 0 {
+			return
+		}
+	}
+	var as []resolver.Address
+	for _, a := range list {
+		as = append(as, resolver.Address{Addr: a})
+	}
+	if !s.shutCalled {
+		s.addrHist = append(s.addrHist, lbAddrSet{seq: x.e.Next(), addrs: list})
+		s.addr = strings.Join(list, "+")
+		i.addrUpdates++
+	}
+	x.e.Logf("lb sc%d update addresses %v (notified %v, shut=%v, via cc=%v)", s.id, list, s.state, s.shutCalled, viaCC)
+	x.e.Probe("update_addresses_in_" + s.state.String())
+	if viaCC {
+		i.cc.UpdateAddresses(s.sc, as)
+	} else {
+		s.sc.UpdateAddresses(as)
+	}
 }
 
 func (i *lbInst) UpdateClientConnState(s balancer.ClientConnState) error {
@@ -120,7 +222,10 @@ func (i *lbInst) UpdateClientConnState(s balancer.ClientConnState) error {
 		return nil
 	}
 	i.started = true
-	for _, a := range s.ResolverState.Addresses {
+	for k, a := range s.ResolverState.Addresses {
+		if i.cfg.InitSCs > 0 && k >= i.cfg.InitSCs {
+			break
+		}
 		if sc := i.newSC(a.Addr); sc != nil && i.cfg.AutoConnect {
 			sc.connect("auto")
 		}
@@ -299,7 +404,7 @@ func (i *lbInst) script() {
 			a := addrs[((st.SC%len(addrs))+len(addrs))%len(addrs)]
 			used := false
 			for _, o := range i.scs {
-				if o.addr == a && !o.shutCalled {
+				if !o.shutCalled && lbHasAddr(o.cur(), a) {
 					used = true
 				}
 			}
@@ -312,6 +417,10 @@ func (i *lbInst) script() {
 						i.publish("newsc")
 					}
 				}
+			}
+		case "addrs", "addrs_empty":
+			if s != nil && !i.closed {
+				i.updateAddrs(s, st.Addrs, st.Op == "addrs_empty", st.ViaCC)
 			}
 		case "publish":
 			i.publish("script")
@@ -472,6 +581,10 @@ func (p *lbPicker) Pick(info balancer.PickInfo) (balancer.PickResult, error) {
 		return balancer.PickResult{}, balancer.ErrNoSubConnAvailable
 	}
 	pk.sc = s
+	if s.hc && s.state != connectivity.Ready && !s.shutCalled && s.connected() {
+		// the case in which "has a transport" and "is READY" differ
+		e.Probe("pick_healthchecked_subconn_connected_not_ready")
+	}
 	res := balancer.PickResult{SubConn: s.sc, Metadata: metadata.Pairs("x-sim-pick", strconv.Itoa(pk.id))}
 	if withDone {
 		pk.hasDone = true
